@@ -328,6 +328,16 @@ pub mod sstable {
 		cfg: Cfg,
 	}
 
+	/// The table is heap-allocated and handed out as `&'static` so that cursors need no lifetime;
+	/// dropping the `Tbl` frees it (and closes its file): every `Cur` made from it must be dropped first.
+	impl Drop for Tbl {
+		fn drop(&mut self) {
+			// SAFETY: `table` came from `Box::leak` in `open`/`open_path`/`build`, is not shared between `Tbl`s,
+			// and the harness drops all cursors of a table before the table (documented contract of this hook).
+			unsafe { drop(Box::from_raw(self.table as *const Table as *mut Table)) }
+		}
+	}
+
 	static NEXT_ID: std::sync::atomic::AtomicU64 = std::sync::atomic::AtomicU64::new(1 << 40);
 
 	/// Writes `entries` (strictly ascending in internal-key order) with the real `TableWriter`.
